@@ -372,6 +372,23 @@ def _validate_units_consistency(objs):
         raise UnitInconsistencyError(*units)
 
 
+def _fill_values_in(ref_units, obj):
+    """
+    Return obj with every quantity in it (obj itself, or items of a list or
+    tuple) replaced by its value in ref_units. Raises UnitConversionError
+    for a quantity of another dimension. Pure numbers are left alone:
+    they are taken as already being in ref_units.
+    """
+    if isinstance(obj, unyt_array):
+        if obj.units == ref_units:
+            # nothing to convert (and integer data stays integer)
+            return np.asarray(obj)
+        return obj.to_value(ref_units)
+    if isinstance(obj, (list, tuple)):
+        return type(obj)(_fill_values_in(ref_units, _) for _ in obj)
+    return obj
+
+
 def _validate_units_consistency_v2(ref_units, *args) -> None:
     """
     raise UnitInconsistencyError if units are mixed
@@ -931,12 +948,20 @@ def diff_helper(func, arr, *args, **kwargs):
 
 
 @implements(np.diff)
-def diff(a, *args, **kwargs):
-    return diff_helper(np.diff, a, *args, **kwargs)
+def diff(a, n=1, axis=-1, *args, **kwargs):
+    # prepend and append values are merged with the data before differencing
+    u = getattr(a, "units", NULL_UNIT)
+    args = tuple(_fill_values_in(u, _) for _ in args)
+    kwargs = {k: _fill_values_in(u, v) for k, v in kwargs.items()}
+    return diff_helper(np.diff, a, n, axis, *args, **kwargs)
 
 
 @implements(np.ediff1d)
 def ediff1d(ary, *args, **kwargs):
+    # to_end and to_begin values are merged with the differences
+    u = getattr(ary, "units", NULL_UNIT)
+    args = tuple(_fill_values_in(u, _) for _ in args)
+    kwargs = {k: _fill_values_in(u, v) for k, v in kwargs.items()}
     return diff_helper(np.ediff1d, ary, *args, **kwargs)
 
 
@@ -963,6 +988,10 @@ if NUMPY_VERSION >= Version("2.1.0.dev0"):
 
 @implements(np.pad)
 def pad(array, *args, **kwargs):
+    # constant_values and end_values are merged with the data
+    for key in ("constant_values", "end_values"):
+        if key in kwargs:
+            kwargs[key] = _fill_values_in(array.units, kwargs[key])
     return np.pad._implementation(np.asarray(array), *args, **kwargs) * array.units
 
 
@@ -1216,6 +1245,12 @@ def interp(x, xp, fp, *args, **kwargs):
     # This avoid leaking a dimensionless unyt_array if reference data
     # is a pure np.ndarray
     ret_units = getattr(fp, "units", 1)
+    # left and right stand in for values of fp
+    fp_units = getattr(fp, "units", NULL_UNIT)
+    args = tuple(_fill_values_in(fp_units, _) for _ in args[:2]) + args[2:]
+    for key in ("left", "right"):
+        if key in kwargs:
+            kwargs[key] = _fill_values_in(fp_units, kwargs[key])
     return (
         np.interp(np.asarray(x), np.asarray(xp), np.asarray(fp), *args, **kwargs)
         * ret_units
